@@ -492,6 +492,10 @@ func (c *Ctx) iteVal(cond Term, a, b Val) Val {
 		return ArrayV{Ite(cond, x.Ref, y.Ref), x.N, x.Elem}
 	case FuncRef:
 		return x
+	case Interior:
+		if y, ok := b.(Interior); ok && y.Prefix == x.Prefix {
+			return Interior{Ite(cond, x.Ref, y.Ref), Ite(cond, x.Idx, y.Idx), x.Prefix, x.Elem}
+		}
 	case nil:
 		return b
 	}
